@@ -39,12 +39,13 @@ func (s *S) UnmarshalJSON(b []byte) error {
 
 // FileSpec describes one uploaded file abstractly; the bytes are generated from (Kind, Len).
 type FileSpec struct {
-	Dir      string `json:"dir"`                // directory part of the name the file reports ("" or ending in '/')
-	Base     string `json:"base"`               // base name: what the part's filename must be
-	Kind     string `json:"kind"`               // content generator, see content()
-	Len      int    `json:"len"`                // content length
-	Declared string `json:"declared,omitempty"` // non-empty: the file has a ContentType() method returning this
-	Src      string `json:"src"`                // how the file is read: named-full|named-one|named-k7|named-dataeof|named-zerofirst|osfile
+	Dir      string  `json:"dir"`                // directory part of the name the file reports ("" or ending in '/')
+	Base     string  `json:"base"`               // base name: what the part's filename must be
+	Kind     string  `json:"kind"`               // content generator, see content()
+	Len      int     `json:"len"`                // content length
+	Declared string  `json:"declared,omitempty"` // non-empty: the file has a ContentType() method returning this
+	Src      string  `json:"src"`                // how the file is read: named-full|named-one|named-k7|named-dataeof|named-zerofirst|osfile|fifo|env
+	Env      *SrcEnv `json:"env,omitempty"`      // src == env: the scripted source (faults.go)
 }
 
 type FormField struct {
@@ -59,10 +60,11 @@ type FileField struct {
 
 // ReaderSpec describes an io.Reader / io.ReadCloser payload.
 type ReaderSpec struct {
-	Flavor string `json:"flavor"` // plain|closer|bytes.Buffer|bytes.Reader|strings.Reader|osfile
-	Policy string `json:"policy"` // full|one|k7|dataeof|zerofirst (plain and closer only)
-	Kind   string `json:"kind"`
-	Len    int    `json:"len"`
+	Flavor string  `json:"flavor"`        // plain|closer|bytes.Buffer|bytes.Reader|strings.Reader|osfile|fifo|env
+	Env    *SrcEnv `json:"env,omitempty"` // flavor == env: the scripted source (faults.go)
+	Policy string  `json:"policy"`        // full|one|k7|dataeof|zerofirst (plain and closer only)
+	Kind   string  `json:"kind"`
+	Len    int     `json:"len"`
 }
 
 // Case is one element of the enumerated space; check(Case) is a pure function of it
